@@ -40,6 +40,7 @@ func c18Gen(t *rapid.T) qScenario {
 		Partial:  rapid.Bool().Draw(t, "partial"),
 		Bounce:   rapid.SampledFrom([]string{"ok", "ok", "ok", "ok", "start", "rcpt", "body", "commit"}).Draw(t, "bounce"),
 	}
+	sc.AutogenDomain = rapid.SampledFrom([]string{"", "", "", "почта.maddy.test"}).Draw(t, "autogen_domain")
 	m := qMsg{ID: "m0", From: "sender@example.com", OriginalFrom: "sender@example.com", Body: "hello\r\n"}
 	m.Header = ev.QS(rapid.SampledFrom(c18Headers).Draw(t, "header"))
 	switch rapid.IntRange(0, 9).Draw(t, "sender") {
@@ -347,6 +348,18 @@ func c18Run(sc qScenario) (vs []ev.V) {
 		}
 		if !strings.Contains(p.To, m.OriginalFrom) && !bytes.Contains([]byte(p.To), []byte("xn--")) && !strings.ContainsAny(m.OriginalFrom, " ,\"()") {
 			vs = append(vs, ev.Vf("report:to-header", "%s: To header %q, the sender is %q", where, p.To, m.OriginalFrom))
+		}
+		// a report that is not sent as an internationalized message (SMTPUTF8 not set for it) has an ASCII header
+		if !rep.Meta.SMTPOpts.UTF8 {
+			for _, k := range []string{"From", "To", "Message-Id", "Subject"} {
+				v := rep.Header.Get(k)
+				for i := 0; i < len(v); i++ {
+					if v[i] >= 0x80 {
+						vs = append(vs, ev.Vf("report:8bit-header-without-smtputf8", "%s: header field %s: %q is not ASCII but the report is not handed over as an SMTPUTF8 message", where, k, v))
+						break
+					}
+				}
+			}
 		}
 		// well-formed: the To field is one address, the sender's
 		if list, err := mail.ParseAddressList(p.To); err != nil || len(list) != 1 {
